@@ -465,6 +465,37 @@ theorem setConstraint_raises_iff (p : Param ℝ) (c : Option (Interval ℝ)) (e 
 
 /-! ## the auto-correcting parameter -/
 
+/-- The width hypothesis in the property's own terms: an interval with proper bounds that is at
+least `1e-9` wide, with a precision between 0 and `1e-10` (the default `TINY = 1e-12` included,
+`default_prec_ok`), is wide.  This pins the generated constant: the proof needs `TINY < 9e-10`. -/
+theorem wide_of_width (c : Interval ℝ) (hp : c.proper = true) (h0 : 0 ≤ c.prec) (h1 : c.prec ≤ 1e-10)
+    (hwid : c.lo.toEReal + ((1e-9 : ℝ) : EReal) ≤ c.hi.toEReal) : c.wide = true := by
+  have hT : (Constants.TINY : ℝ) < 9e-10 := by
+    simp only [Constants.TINY, ScalarReal.ofRat_eq]; norm_num
+  rw [wide_iff]
+  refine ⟨h0, ?_⟩
+  unfold proper at hp
+  cases hlo : c.lo with
+  | posInf => rw [hlo] at hp; simp at hp
+  | negInf =>
+    cases hhi : c.hi with
+    | negInf => rw [hhi] at hp; simp at hp
+    | fin h => simp [EReal.bot_lt_coe]
+    | posInf => simp
+  | fin l =>
+    rw [hlo] at hwid
+    cases hhi : c.hi with
+    | negInf => rw [hhi] at hp; simp at hp
+    | posInf => simp only [Bound.toEReal_fin, Bound.toEReal_posInf, ← EReal.coe_add]; exact EReal.coe_lt_top _
+    | fin h =>
+      rw [hhi] at hwid
+      simp only [Bound.toEReal_fin, ← EReal.coe_add, EReal.coe_le_coe_iff, EReal.coe_lt_coe_iff] at hwid ⊢
+      linarith
+
+theorem default_prec_ok : (0 : ℝ) ≤ Constants.TINY ∧ (Constants.TINY : ℝ) ≤ 1e-10 := by
+  refine ⟨TINY_pos.le, ?_⟩
+  simp only [Constants.TINY, ScalarReal.ofRat_eq]; norm_num
+
 /-- **auto_total**: on a wide interval (`0 ≤ precision`, `lo + precision + TINY < hi`) the
 auto-correcting setter never raises, for any finite request -/
 theorem auto_total (p : Param ℝ) (v : ℝ) (hp : 0 ≤ p.precision)
